@@ -1,7 +1,7 @@
 (* Property C06 - race: the first child seen to resolve wins, immediately, and the rest are cancelled. *)
 From Coq Require Import List Arith Bool.
 Import ListNotations.
-Require Import ScanFull InstsFull Pass C11Groups PassProofs C02Join C02Merge PassLedger.
+Require Import ScanFull InstsFull Pass C11Groups PassProofs Monitors C02Join C02Merge PassLedger.
 
 (* [Pr s fin t] (Proofs/PassProofs.v): not finished - every child poll so far answered something other than Ready and nothing has been
    returned; finished - the child polls are P0 ++ [(i, Ready r)] with nobody resolved in P0 and the single result is r's output:
@@ -24,3 +24,11 @@ Example C06_witness :
   let w := race_world scs [OPollFresh; OFire 1 0; OPollFresh] in
   dropped _ w = false /\ finished _ w = true /\ results (strip (tr _ w)) = [OVals [5]].
 Proof. vm_compute. repeat split; reflexivity. Qed.
+
+(* the same statement as a boolean predicate over the observable trace (race_b, Proofs/Monitors.v): the function that runner/montool.ml evaluates on
+   every trace of the crate *)
+Theorem C06_result_predicate_holds scs ops :
+  let w := race_world scs ops in
+  dropped _ w = false -> race_b (strip (tr _ w)) = true.
+Proof. exact (race_b_holds scs ops). Qed.
+Print Assumptions C06_result_predicate_holds.
